@@ -61,6 +61,10 @@ MixVoicing == IsEv("mixvoicing") /\ MixVoicingLaw(Rec[l]) /\ UNCHANGED sweep
 \* other streams' trajectories do not move when one stream's threshold / GV weight changes (digests)
 Isolated == IsEv("isolated") /\ Rec[l].spectrum_equal /\ Rec[l].lpf_equal /\ UNCHANGED sweep
 
+\* the engine's waveform is the public vocoder's rendering of the trajectories with voiced log-F0 limited to ln 20 Hz .. ln 20 kHz
+\* and "no F0" frames as noise (digest equality)
+Render == IsEv("render") /\ Rec[l].equal /\ UNCHANGED sweep
+
 \* ---- C15: additional half tone h = h8 / 8: log-F0 of every voiced frame moves by h ln2/12 (7220283 nano per eighth)
 HalfToneLaw(e) ==
    /\ e.len_equal /\ e.dur_equal /\ e.nodata_equal /\ e.spectrum_equal /\ e.lpf_equal      \* nothing else changes
@@ -73,6 +77,8 @@ HalfTone == IsEv("halftone") /\ HalfToneLaw(Rec[l]) /\ UNCHANGED sweep
 \* ---- C16: volume v dB = v_milli / 1000: every sample is multiplied by 10^(v/20)
 GainLaw(e) == /\ Abs(e.gain_udb - 1000 * e.v_milli) <= 20            \* measured gain in micro-dB
               /\ e.resid_ppb <= 1000                                   \* x_v is ratio * x_0, sample by sample
+              \* "to rounding accuracy": factor = 10^(v/20) and residual, both within 1e-11 (f64 evaluation errs by < 1e-14)
+              /\ e.gain_err_e13 <= 100 /\ e.resid_e13 <= 100
               /\ Abs(e.getv_nano) <= 100                               \* get_volume returns v up to rounding
               /\ e.len_equal /\ e.traj_equal                           \* and nothing else changes
 Gain == IsEv("gain") /\ GainLaw(Rec[l]) /\ UNCHANGED sweep
@@ -91,7 +97,7 @@ GvOff == IsEv("gvoff") /\ Rec[l].unaffected /\ UNCHANGED sweep
 \* ---- C17: corrupted label text is reported as an error (or still synthesizes), never a panic
 Corrupt == IsEv("corrupt") /\ Rec[l].outcome \in {"ok", "err"} /\ UNCHANGED sweep
 
-Next == Corrupt \/ Synth \/ Fuzz \/ MixVoicing \/ Voicing \/ Isolated \/ HalfTone \/ Gain \/ Gv \/ GvNone \/ GvOff
+Next == Corrupt \/ Synth \/ Fuzz \/ MixVoicing \/ Voicing \/ Isolated \/ Render \/ HalfTone \/ Gain \/ Gv \/ GvNone \/ GvOff
 Spec == Init /\ [][Next]_vars
 Accepted == IF TLCGet("stats").diameter - 1 = Len(Rec) THEN TRUE
             ELSE Print(<<"REJECT at", TLCGet("stats").diameter>>, FALSE)
